@@ -38,6 +38,13 @@ for i, z in enumerate(zones):
     e.add('exdate', [datetime(2021, 5, 1, 10, tzinfo=ZoneInfo(zz)) for zz in zones[i:] + zones[:i]])   # a list that mixes zones
     e.add('x-slot-7', 'a'); e.add('x-slot-07', 'b'); e.add('x-slot-007', 'c'); e.add('attendee', 'mailto:a@b', parameters={'cn': 'A', 'role': 'CHAIR'})
     a = Alarm(); a.TRIGGER = timedelta(minutes=-5); e.add_component(a); cal.add_component(e)
+from datetime import time as _time
+m = Event(); m.add('uid', 'mixed')
+# date lists that mix value kinds (each kind carries its own VALUE): whatever is written must not depend on hashing
+m.add('rdate', [date(2021, 1, 1), (datetime(2021, 1, 2, 10), datetime(2021, 1, 2, 11))])
+m.add('exdate', [date(2021, 2, 1), _time(10, 0)])
+m.add('rdate', [(datetime(2021, 3, 2, 10), timedelta(hours=1)), date(2021, 3, 1), datetime(2021, 3, 3, 9)])
+cal.add_component(m)
 cal.add_missing_timezones(first_date=date(2020, 1, 1), last_date=date(2022, 1, 1))
 b = cal.to_ical() + cal.to_ical(sorted=False)
 # every component kind, holding every name any canonical order mentions: the first and the second serialisation
